@@ -32,6 +32,8 @@ def _containment_primitive(ctx: Ctx) -> None:
     RP.rule_lp_objective(ctx, P + "verify_polytope_containment")
     RP.rule_matrix_provenance(ctx, P + "verify_polytope_containment")
     RP.rule_containment_every_row(ctx)
+    RP.rule_lp_zero_columns(ctx, P + "verify_polytope_containment", ["a_l", "a_r"], ["b_l", "b_r"], any_of=True)
+    RP.rule_lp_zero_columns(ctx, P + "is_polytope_empty", ["a"], ["b"])
 
 
 def _simplify_primitive(ctx: Ctx) -> None:
@@ -46,6 +48,7 @@ def _simplify_primitive(ctx: Ctx) -> None:
     RP.rule_simplify_wiring(ctx)
     RP.rule_polytope_roundtrip(ctx)
     RP.rule_back_conversion_every_row(ctx)
+    RP.rule_lp_zero_columns(ctx, P + "reduce_polytope", ["a", "a_help"], ["b"])
 
 
 def c05(ctx: Ctx) -> None:
@@ -146,6 +149,7 @@ def c07(ctx: Ctx) -> None:
     RP.rule_simplify_wiring(ctx)
     RP.rule_polytope_roundtrip(ctx)
     RP.rule_back_conversion_every_row(ctx)
+    RP.rule_lp_zero_columns(ctx, P + "reduce_polytope", ["a", "a_help"], ["b"])
     RA.rule_constructor(ctx, RA.POLY)
     RP.rule_lp_bounds(ctx)
 
@@ -159,6 +163,7 @@ def c11(ctx: Ctx) -> None:
     RP.rule_is_empty_wiring(ctx)
     RP.rule_lp_bounds(ctx)
     RP.rule_polytope_roundtrip(ctx)
+    RP.rule_lp_zero_columns(ctx, P + "is_polytope_empty", ["a"], ["b"])
 
 
 def c12(ctx: Ctx) -> None:
@@ -218,12 +223,18 @@ def c14(ctx: Ctx) -> None:
     RP.rule_decline_discipline(ctx)
     for k in RP.STATUS_TABLES:
         RP.rule_status_table(ctx, k)
+        RP.rule_lp_result_use(ctx, k)
+    P = RP.PTL
+    RP.rule_lp_zero_columns(ctx, P + "verify_polytope_containment", ["a_l", "a_r"], ["b_l", "b_r"], any_of=True)
+    RP.rule_lp_zero_columns(ctx, P + "is_polytope_empty", ["a"], ["b"])
+    RP.rule_lp_zero_columns(ctx, P + "reduce_polytope", ["a", "a_help"], ["b"])
 
 
 def c19(ctx: Ctx) -> None:
     RS.rule_eq(ctx)
     RS.rule_hash(ctx)
     RS.rule_hash_order(ctx)
+    RS.rule_hash_number_text(ctx)
     RS.rule_copy(ctx)
     RK.rule_term_kernels(ctx, ["copy"])
 
@@ -248,6 +259,8 @@ def c03(ctx: Ctx) -> None:
     RP.rule_lp_compare(ctx, P + "verify_polytope_containment")
     RP.rule_lp_objective(ctx, P + "verify_polytope_containment")
     RP.rule_containment_every_row(ctx)
+    RP.rule_lp_zero_columns(ctx, P + "verify_polytope_containment", ["a_l", "a_r"], ["b_l", "b_r"], any_of=True)
+    RP.rule_lp_zero_columns(ctx, P + "is_polytope_empty", ["a"], ["b"])
     RP.rule_matrix_provenance(ctx, P + "verify_polytope_containment")
     RP.rule_matrix_provenance(ctx, P + "is_polytope_empty")
     RP.rule_lp_bounds(ctx)
@@ -417,7 +430,8 @@ _reg(
     "content (those are findings), every other assert is in the reviewed invariant table; a documented check turned into an assert is recognised against the reference decline table; the file reader checks every entry key before use and validates "
     "every representation it dispatches on; validators require every key from_dict reads; the dispatcher absorbs exactly ValueError; solver statuses map to documented outcomes; every true division has a denominator that is a non-zero literal, "
     "a stored coefficient of a variable known to occur in the term (with the kernel laws showing that no kernel stores a zero coefficient) or is tested against zero on the way - a number parsed from the constraint string and divided by untested is a violation (defect D14); "
-    "a pyparsing error raised by a parse action is converted by every caller of parse_string; the dictionary sympy's solver returns is read only at keys it is known to have (or after numpy has accepted the same square system).",
+    "a pyparsing error raised by a parse action is converted by every caller of parse_string; the dictionary sympy's solver returns is read only at keys it is known to have (or after numpy has accepted the same square system); "
+    "under solver statuses 1-4 the optimum (fun / x / slack, None then) never enters arithmetic (defect D16); matrices with rows and no columns (variable-free terms) never reach linprog and are decided from their bounds (defect D17).",
     ["exceptions raised inside numpy/scipy/sympy/pyparsing for exotic values (e.g. float(None)) are not modelled", "an assert that is neither tainted nor reviewed is reported as undecidable (exit 2), not as a violation"],
     design_ref="DESIGN.md sections 2.5, 3 (C14)",
 )
@@ -448,7 +462,7 @@ _reg(
     "C19", c19, "other",
     "static analysis: field tables from constructor stores compared with the fields read by __eq__/__hash__/copy; interpreter check of copy(); kernel law of PolyhedralTerm.copy",
     "Decides: every __eq__ compares each state field of self with the same field of other (never with itself), by conjunction, behind the same type guard; __hash__ exists next to __eq__ and reads only compared state (never identity) and does not expose the "
-    "insertion order of a dictionary field that == compares as a mapping (directly or through the __str__ it hashes); "
+    "insertion order of a dictionary field that == compares as a mapping (directly or through the __str__ it hashes), and hashes float state as numbers, not as text (0.0 == -0.0 print differently; defect D15); "
     "copy() returns the same interface and lists through the constructor, list copies copy every element, term copies do not share their dictionary; NestedTermList equality is mutual <=.",
     ["0.0 / -0.0 hashing and ulp-level effects of re-simplification in copy() are not decided"],
 )
